@@ -89,6 +89,32 @@ def h_dmrg_numeric(V, family, N, seed, method):
         V.check('projected-run-is-orthogonal-to-the-listed-state', abs(mps.vdot(gs, phi)) <= 1e-5)
         w = dense_in_space(ops, phi)
         V.check('projected-run-targets-an-excited-level', np.real(np.vdot(w, Hm @ w)) >= ev[0] - 1e-9 and min(abs(ev[1:] - out.energy)) <= 1e-5)
+    # a canonical initial state with a norm factor, and truncation that binds on every bond: the result is still normalised
+    for label, fac, D in (('initial-norm-factor', 3.0, 64), ('binding-truncation', 1.0, 1)):
+        if method == '1site' and D == 1:
+            continue
+        ops.random_seed(seed + 11)
+        chi = fac * mps.random_mps(I, D_total=16 if D > 1 else 4, **kw).canonize_(to='first')
+        o = mps.dmrg_(chi, H, method=method, max_sweeps=3, opts_eigs={'hermitian': True, 'ncv': 8, 'which': 'SR'},
+                      **(dict(opts_svd={'D_total': D, 'tol': 1e-14}) if method == '2site' else {}))
+        w = dense_in_space(ops, chi)
+        V.check(f'{label}:returned-state-normalised-and-canonical', abs(np.linalg.norm(w) - 1) <= 1e-10 and bool(chi.is_canonical(to='first', tol=1e-9)))
+        V.check(f'{label}:reported-energy-is-<psi|H|psi>', abs(o.energy - np.real(np.vdot(w, Hm @ w))) <= 1e-9 * max(1.0, abs(o.energy)))
+    # complex Hermitian couplings and complex states: projection must push away from the listed state (the penalty is linear)
+    if cls != 'Spin12' and N >= 3:
+        Hc, _, _ = herm_mpo(ops, N, seed, cplx=True)
+        Hcm = dense_in_space(ops, Hc)
+        Hcs = Hcm[np.ix_(idx, idx)]
+        evc = np.linalg.eigvalsh((Hcs + Hcs.conj().T) / 2)
+        ops.random_seed(seed + 21)
+        g = mps.random_mps(I, D_total=16, dtype='complex128', **kw)
+        mps.dmrg_(g, Hc, method=method, max_sweeps=14, opts_eigs={'hermitian': True, 'ncv': 8, 'which': 'SR'}, **opts)
+        ops.random_seed(seed + 22)
+        e1 = mps.random_mps(I, D_total=16, dtype='complex128', **kw)
+        o = mps.dmrg_(e1, Hc, project=[g], method=method, max_sweeps=14, opts_eigs={'hermitian': True, 'ncv': 8, 'which': 'SR'}, **opts)
+        if len(evc) >= 2:
+            V.check('complex:projected-run-is-orthogonal-to-the-listed-state', abs(mps.vdot(g, e1)) <= 1e-5)
+            V.check('complex:projected-run-targets-an-excited-level', min(abs(evc[1:] - o.energy)) <= 1e-5)
     # precompute and sum of MPOs give the same energies
     res = {}
     for label, Hx, pc in (('plain', H, False), ('precompute', H, True), ('sum', [0.5 * H, 0.5 * H], False), ('sum+precompute', [0.25 * H, 0.75 * H], True)):
